@@ -226,7 +226,7 @@ func (g *Gen) quad() string {
 
 // oddFloat: values a grid of metres does not expect
 func (g *Gen) oddFloat() string {
-	return []string{"NaN", "+Inf", "-Inf", "3e38", "-1e30", "1e9", "-5000", "0", "-0", "1e-40", "-2.5"}[g.rnd.Intn(11)]
+	return []string{"NaN", "NaN", "+Inf", "-Inf", "3e38", "-1e30", "1e9", "-5000", "0", "-0", "1e-40", "-2.5"}[g.rnd.Intn(12)]
 }
 
 func (g *Gen) validReceipt() (r, h, s []byte) {
@@ -415,8 +415,11 @@ func (g *Gen) RequestOf(c int, forceKind string) *wire.Req {
 			for _, i := range []int{0, 2, 3, 5} {
 				f[i] = f32(float64(g.rnd.Intn(161) - 80))
 			}
-		case 1:
+		case 1, 2:
 			f[[]int{0, 2, 3, 5}[g.rnd.Intn(4)]] = g.oddFloat()
+			if g.rnd.Intn(3) == 0 {
+				f[[]int{0, 2, 3, 5}[g.rnd.Intn(4)]] = g.oddFloat()
+			}
 		}
 		r.Geo = strings.Join(f, ",")
 		if g.rnd.Intn(25) == 0 {
